@@ -465,6 +465,15 @@ pub fn gen(r: &mut Rng, cases: usize, size: usize, extra: &[String], out: &mut O
                     out.line(&line_old.replace(&format!(" {p}"), &format!(" {p}fresh")));
                 }
                 out.line(&format!("memo {p}"));
+                // LAST (the random search leaves its own nodes on the used object): a seeded Rand run
+                // must be reproducible on the used object and equal a twin's, whatever happened before
+                let mode = if r.bool() { "stable" } else { "twoval" };
+                if r.chance(1, 3) {
+                    // an unseeded random run first: seeding afterwards must still take effect
+                    out.line(&format!("randrepro {p} {} {mode} warm", r.below(1 << 30)));
+                } else {
+                    out.line(&format!("randrepro {p} {} {mode} cold", r.below(1 << 30)));
+                }
             }
         }
     }
@@ -917,6 +926,17 @@ impl Exec {
                 true
             }
             "memocheckn" => true,
+            "randrepro" if ws.len() == 5 => {
+                out.line(l);
+                out.flush();
+                let r = catch_unwind(AssertUnwindSafe(|| self.randrepro(ws[1], ws[2], ws[3] == "stable", ws[4] == "warm")));
+                match r {
+                    Ok(Some(s)) => out.line(&format!("~ {s}")),
+                    Ok(None) => out.line("~ bad-request"),
+                    Err(_) => out.line("~ panic"),
+                }
+                true
+            }
             _ => false,
         }
     }
@@ -1306,6 +1326,43 @@ impl Exec {
             set_s(&vs)
         };
         Some((vecs_s(&vs), sp))
+    }
+
+    /// `seed(S); Rand-search` twice on the used object and once on its twin: same answers, same order
+    fn randrepro(&mut self, p: &str, seed: &str, stable: bool, warm: bool) -> Option<String> {
+        let s: u64 = seed.parse().ok()?;
+        let mut bytes = [0u8; 32];
+        for (i, b) in bytes.iter_mut().enumerate() {
+            *b = (s >> ((i % 8) * 8)) as u8 ^ (i as u8).wrapping_mul(37);
+        }
+        let run = |a: &mut Adf| -> Vec<Vec<Term>> {
+            if stable {
+                a.stable_nogood(Heuristic::Rand).collect()
+            } else {
+                let (sd, rc) = crossbeam_channel::unbounded();
+                a.two_val_nogood_channel(Heuristic::Rand, sd);
+                rc.iter().collect()
+            }
+        };
+        let twin_name = format!("{p}fresh");
+        let a = self.adf(p)?;
+        if warm {
+            let _ = run(a);
+        }
+        a.seed(bytes);
+        let r1 = run(a);
+        a.seed(bytes);
+        let r2 = run(a);
+        let t = self.adf(&twin_name)?;
+        t.seed(bytes);
+        let r3 = run(t);
+        let seq = |vs: &[Vec<Term>]| vs.iter().map(|v| tfu(v)).collect::<Vec<_>>();
+        Some(format!(
+            "reproducible same-object={} twin={} set={}",
+            (seq(&r1) == seq(&r2)) as u8,
+            (seq(&r1) == seq(&r3)) as u8,
+            set_s(&r1)
+        ))
     }
 
     fn ng(&mut self, channel: bool, p: &str, heu: &str, stable: bool) -> Option<(String, String)> {
